@@ -855,6 +855,23 @@ def inline_function(idx: PyIndex, fi: FuncInfo, depth: int = 2, keep=None, types
                         break
             return node
     fn = _CallableCells().visit(fn)
+    # a name that resolves (through imports) to a module-level string literal is read as the literal: `TEMPLATE.format(..)` with TEMPLATE imported from a sibling module
+    local_names = {x.id for x in ast.walk(fn) if isinstance(x, ast.Name) and isinstance(x.ctx, (ast.Store, ast.Del))} | {a.arg for a in fn.args.args + fn.args.kwonlyargs}
+
+    class _ImportedStrings(ast.NodeTransformer):
+        def visit_Attribute(self, node):
+            self.generic_visit(node)
+            if node.attr in ('format', 'join', 'format_map') and isinstance(node.value, ast.Name) and node.value.id not in local_names:
+                for mn in [fi.module] + sorted(_touched_modules):
+                    sym = idx.resolve(mn, node.value.id) if mn in idx.modules else None
+                    if sym is not None and sym.kind == 'assign' and isinstance(sym.node, ast.Constant) and isinstance(sym.node.value, str):
+                        defs = [st_ for st_ in idx.modules[sym.module].tree.body if isinstance(st_, ast.Assign) and any(isinstance(t_, ast.Name) and t_.id == sym.name
+                                                                                                                     for t_ in st_.targets)]
+                        if len(defs) == 1:
+                            node.value = ast.copy_location(ast.Constant(value=sym.node.value), node.value)
+                            break
+            return node
+    fn = _ImportedStrings().visit(fn)
     ast.fix_missing_locations(fn)
     fn = _Subst({}).visit(fn)           # getattr(x, 'const') -> x.const, applied lambdas
     if fn.body and any(isinstance(x, (ast.If, ast.IfExp)) for x in ast.walk(fn)):
